@@ -23,6 +23,8 @@ structure ExprSpec (ε : Type) where
   wfb   : ε → Bool
   /-- may stand alone as a statement (`parse_assignment` does not take it) -/
   stmtb : ε → Bool
+  /-- may stand left of an assignment operator (`parse_dot_ops` yields `tree`) -/
+  lhsb  : ε → Bool
 
 /-! ## token classes -/
 
@@ -64,6 +66,9 @@ def firstKindOK (p : Kind → Bool) : List Tok → Bool
   | [] => false
   | t :: _ => p t.kind
 
+/-- the target of an assignment starts with an identifier-like token other than `type` -/
+def lhsStartOK (k : Kind) : Bool := identKinds.contains k && k != Kind.Type
+
 /-- a tree that can stand where a statement or operand is expected: a proper node (the grouping
     kinds `#none`, `#seq`, `#noend`, `#caught` are interpreted by the semantic actions) -/
 def okTree : Tree → Bool
@@ -75,7 +80,7 @@ def okTree : Tree → Bool
 mutual
 inductive Stmt (ε : Type) where
   /-- `lhs = e` (also `-=`, `+=`, `:=`) -/
-  | assign (lhs op : Tok) (e : ε)
+  | assign (lhs : ε) (op : Tok) (e : ε)
   /-- expression statement -/
   | expr (e : ε)
   /-- `return e` -/
@@ -111,7 +116,7 @@ def stepToks : Option (Tok × ε) → List Tok
 mutual
 /-- printing: the tokens in source order -/
 def Stmt.toks : Stmt ε → List Tok
-  | .assign lhs op e => lhs :: op :: X.toks e
+  | .assign lhs op e => X.toks lhs ++ op :: X.toks e
   | .expr e => X.toks e
   | .ret kw e => kw :: X.toks e
   | .ctl kw => [kw]
@@ -146,7 +151,7 @@ def ifBlock (start : Range) (cond : Option Tree) (stmts : List Tree) : Tree :=
 mutual
 /-- the intended tree -/
 def Stmt.tree : Stmt ε → Tree
-  | .assign lhs op e => binNode (terminal (.leaf lhs)) (.leaf op) (X.tree e)
+  | .assign lhs op e => binNode (X.tree lhs) (.leaf op) (X.tree e)
   | .expr e => X.tree e
   | .ret kw e => mk "return" "return" (Range.span kw.rng (X.tree e).rng) [X.tree e]
   | .ctl kw => terminal (.leaf kw)
@@ -192,7 +197,8 @@ mutual
 /-- well-formedness: every token is of the kind its place requires, every expression is well
     formed, an expression statement starts with a token no other statement parser reacts to -/
 def Stmt.WF : Stmt ε → Prop
-  | .assign lhs op e => lhs.kind ∈ identKinds ∧ lhs.kind ≠ Kind.Type ∧ op.kind ∈ assignOps ∧ exprOKb X e = true
+  | .assign lhs op e =>
+    X.lhsb lhs = true ∧ firstKindOK lhsStartOK (X.toks lhs) = true ∧ op.kind ∈ assignOps ∧ exprOKb X e = true
   | .expr e => exprOKb X e = true ∧ X.stmtb e = true ∧ firstKindOK exprStartOK (X.toks e) = true
   | .ret kw e => kw.kind = Kind.Return ∧ exprOKb X e = true
   | .ctl kw => kw.kind ∈ ctlKinds
@@ -219,7 +225,7 @@ end
 
 mutual
 def Stmt.wfb : Stmt ε → Bool
-  | .assign lhs op e => identKinds.contains lhs.kind && lhs.kind != Kind.Type && assignOps.contains op.kind && exprOKb X e
+  | .assign lhs op e => X.lhsb lhs && firstKindOK lhsStartOK (X.toks lhs) && assignOps.contains op.kind && exprOKb X e
   | .expr e => exprOKb X e && X.stmtb e && firstKindOK exprStartOK (X.toks e)
   | .ret kw e => kw.kind == Kind.Return && exprOKb X e
   | .ctl kw => ctlKinds.contains kw.kind
@@ -440,5 +446,6 @@ def exSpec : ExprSpec Ex where
   tree := Ex.tree
   wfb := fun e => e.wfb 8
   stmtb := fun e => firstKindOK (fun k => !identKinds.contains k && k != Kind.Comment) e.toks
+  lhsb := fun e => match e with | .atom t => identKinds.contains t.kind | _ => false
 
 end Gold.C06
